@@ -79,6 +79,13 @@ func VxH_C09_grid() {
 		k++
 		cs, rs := 1, 1
 		lastRow := k > ncols*(nrows-1)
+		// (thorough, three rows: the middle row carries no attribute of its own — with every cell symbolic
+		// the exploration does not finish in 90 minutes — it only receives the spans from above)
+		middle := nrows == 3 && k > ncols && k <= 2*ncols
+		if middle {
+			want = append(want, spans{1, 1})
+			return
+		}
 		if !(lastRow && k%ncols == 0) && vx.Bool("has-colspan-"+id) {
 			d := vx.ByteIn("colspan-"+id, '0', '3')
 			n.Attr = append(n.Attr, html.Attribute{Key: "colspan", Val: string([]byte{d})})
